@@ -76,7 +76,7 @@ def check(ctx):
         ctx.expect(where == exp_where[v], "C16.4", "error-kind/" + v, site(sites[v][0][1]) if sites.get(v) else "",
                    "TypeSubstitutionErrorKind::%s is produced only in %s" % (v, exp_where[v] or "no library function"), "produced in %s" % where)
     expect_fn(ctx, "C16.4", "absolute/predicate", "substitutes::is_absolute",
-              "(Option::is_some(P0.leading_colon)||Option::is_some_and(Punctuated::first(P0.segments),|1|{(C1_0.ident=='crate')}))",
+              "(let v1::Some($)=P0.leading_colon||(let v1::Some($)=Punctuated::first(P0.segments)&&(Punctuated::first(P0.segments)@v1::Some.0.ident=='crate')))",
               "absolute iff leading `::` or first segment `crate`", S)
     fs = [b for b in q.fn_by_suffix(P, "std::convert::TryFrom<syn::Path>>::try_from", S)]
     if len(fs) == 1:
